@@ -70,7 +70,7 @@ ASSUMPTIONS = {
 _NOTE = ("Trusted: Coq 8.16.1 kernel + vm_compute; no axioms (Print Assumptions: closed under the global context); the Go correspondence harness encrypth: "
          "its Go type/value builder (reflect.StructOf/MapOf/SliceOf + hand-written Taggable / unexported-field / payload-interface types), its projection of Go values to "
          "trees and its independent decrypt / HMAC recomputation; reflect, copystructure, pointerstructure, AES-GCM, HKDF, HMAC are modelled, not verified.")
-_TECH = "Coq proof over executable model + differential correspondence (vm_compute on harness cases)"
+_TECH = "Coq proof over executable model + differential correspondence (vm_compute on harness cases); the verdict mismatches = [] is proved equivalent to a declarative acceptance of every case (Cxx_verdict_is_model_execution, RunEncryptSound.v / RunCryptoSound.v)"
 MANIFEST = {
     "C09": {"text": "Tag.v (tag resolution on strings) + Encrypt.v (walker on payload trees with symbolic leaves, one addressability flag, failure = no event); theorems no_leak "
                     "(every exposed leaf of every forwarded payload sits at a position whose own tag resolves to public / no operation, every other position holds exactly what its tag, the defaults and the overrides dictate; all trees of G, all override tables, all wrapper-failure oracles), "
@@ -87,7 +87,7 @@ MANIFEST = {
                     "an independent implementation reports which (key, salt, info) reproduces each output",
             "design_ref": "5.C16", "note": _NOTE, "technique": _TECH, "engine": "coq-encrypt"},
 }
-ENGINE = {"name": "coq-encrypt", "path": "coq/Tag.v coq/Encrypt.v coq/EncryptProofs.v coq/Run_Encrypt.v coq/Crypto.v coq/CryptoProofs.v coq/Run_Crypto.v harness/cmd/encrypth lib/eng_encrypt.py",
+ENGINE = {"name": "coq-encrypt", "path": "coq/Tag.v coq/Encrypt.v coq/EncryptSpec.v coq/EncryptProofs.v coq/Run_Encrypt.v coq/RunEncryptSound.v coq/Crypto.v coq/CryptoProofs.v coq/Run_Crypto.v coq/RunCryptoSound.v harness/cmd/encrypth lib/eng_encrypt.py",
           "serves_properties": ["C09", "C10", "C16"], "kind_free_text": "Coq model + proofs; Go differential driver with independent crypto; vm_compute comparison"}
 
 # known findings are read from KNOWN_FINDINGS.txt only (vcheck.load_known)
